@@ -75,7 +75,7 @@ Proof. reflexivity. Qed.
 Lemma comp_pair_other k v b :
   match b with OPair _ _ => False | _ => True end -> comp (OPair k v) b = comp_opt k (Some b).
 Proof. destruct b; intros H; try reflexivity. destruct H. Qed.
-Lemma comp_tok s1 p1 t1 s2 p2 t2 : comp (OTok s1 p1 t1) (OTok s2 p2 t2) = comp_opt s1 s2.
+Lemma comp_tok s1 p1 t1 c1 s2 p2 t2 c2 : comp (OTok s1 p1 t1 c1) (OTok s2 p2 t2 c2) = comp_opt s1 s2.
 Proof. reflexivity. Qed.
 
 (* ---- NULL is below every object ---- *)
@@ -249,7 +249,7 @@ Fixpoint has_ty (t : ty) (o : obj) {struct t} : bool :=
   match t, o with
   | TyObj, OObj _ | TyStr, OStr _ | TyUstr, OUstr _ | TyMbuff, OMbuff _ | TyUrl, OUrl _ _
   | TyRegexp, ORegexp _ _ _ => true
-  | TyTok, OTok s _ _ => match s with None | Some (OStr _) => true | _ => false end
+  | TyTok, OTok s _ _ _ => match s with None | Some (OStr _) => true | _ => false end
   | TyPair k, OPair x _ => match x with None => true | Some y => has_ty k y end
   | TyArr e, OCont _ Arr _ _ items =>
       forallb (fun x => match x with None => true | Some y => has_ty e y end) items
